@@ -25,6 +25,31 @@ CHECKS = {
    "Valid transactions are assembled by the harness (it knows every secret) from generated multisets of inputs, outputs, kernels, fees, shifts and offsets; every catalogue corruption is applied (including re-signed fee changes and compensated coinbase inflation that only the sum / coinbase rule can catch, and controls that must stay accepted) and fed to Transaction::validate, Block::validate and Chain::process_block with real PoW. Over generated fork/reorg histories the stored per-block sums are compared with sums recomputed from the replay model through libsecp and the full-state equation is checked after every head change. Sampled exploration; the catalogue is enumerated completely per generated object.",
    "Trusts libsecp256k1-zkp commit_sum and bulletproof verification; verdicts derived from the balance equation, signature coverage and proof binding. A bit flip in a bulletproof is only asserted inside the two leading scalars (other bits are malleable without creating value).",
    "DESIGN.md §5 C01"),
+ "C04": ("pbt", "exploration",
+   "proptest header chains with real PoW + enumerated single-field header mutations (re-mined so only the intended rule can reject) through three delivery paths; retarget windows vs. a u128 reference re-implementation; read-time policy mutations of mined headers",
+   "A: valid AutomatedTesting chains crossing both retarget eras are mined; each listed field of a header is mutated singly, re-mined where the PoW pre-image changed, and delivered via process_block_header, sync_block_headers and process_block: rejected with header_head unchanged, while still-valid controls are accepted. B: next_difficulty on all chain types and eras over generated windows (incl. shorter than required) equals the harness's u128 reference and obeys minimum / damping / clamp bounds. C: UntrustedBlockHeader refuses out-of-policy encodings. Sampled exploration.",
+   "Reference retarget written from the documented formulas; timestamps far from now except the FTL case (±1 h margin). Mutants of an already-known header hash are only asserted to store nothing and leave heads unchanged.",
+   "DESIGN.md §5 C04"),
+ "C05": ("pbt", "exploration",
+   "exhaustive enumeration of all ascending 8-tuples in 4-bit graphs + solver-found cycles and near misses in larger graphs, against an independent graph-theoretic reference pinned to the published 42-cycle vectors",
+   "For each of the five graph definitions the harness has its own siphash, endpoint derivation and acceptance test (count, ascent, range, all degrees two, one component of full length). Every ascending 8-tuple of hundreds of 4-bit graphs (12 870 tuples each; 5-bit graphs in thorough) and solver-found cycles with their near misses in 6-14 bit graphs are verified by grin and the reference: they must agree in both directions. Difficulty is recomputed in u128 from blake2b of the harness's own packing, Proof serialisation is compared bit-exactly with padding-bit flips refused, and create_pow_context / verify_size are checked per hard-fork era. Exhaustive only over the stated tiny graphs.",
+   "The reference is pinned against the repository's 42-cycle vectors; completeness at production graph sizes rests on that plus small-graph exhaustiveness. Non-termination is detected by a sacrificial thread with a time limit (8 s for microsecond work).",
+   "DESIGN.md §5 C05"),
+ "C10": ("pbt", "exploration",
+   "proptest typed value generators x protocol versions: encode/decode/re-encode round trip, hash independence, and one-rule canonical-form violations derived from valid encodings",
+   "Typed generators for ~45 consensus and wire types (kernels of all variants, inputs in both encodings, outputs, transactions, headers at all edge-bit sizes, blocks, compact blocks, proofs, segments, bitmap segments, tips, handshake and sync messages) crossed with protocol versions 1, 2, 3, 1000: decode(encode(x)) == x with full consumption, identical re-encoding, a second reader agrees, identity hashes equal across versions and equal to blake2b of the defining bytes; unsupported (type, version) pairs fail with the documented error; each canonical-form rule is violated singly in a valid encoding and must be refused. Sampled exploration.",
+   "Only values the repository's writers can produce are generated (IPv4-mapped IPv6 peer addresses excluded: deliberately unmapped). Trailing bytes after a complete value are measured, not asserted (the ser API has no end-of-value notion).",
+   "DESIGN.md §5 C10"),
+ "C12": ("pbt", "exploration",
+   "proptest multisets of valid transactions; aggregate/deaggregate/hydrate compared with a commitment-set model, libsecp offset sums, and metamorphic relations (all permutations, all bracketings, all subsets)",
+   "Multisets of 1-6 valid transactions (independent, chained for cut-through, multi-kernel, all kernel variants, zero and non-zero offsets incl. cancelling offsets) are aggregated; kernels, offset and inputs/outputs are compared with the harness's own set model; every permutation (n<=4) and bracketing gives the identical transaction; deaggregating every proper subset of unchained sets returns the aggregate of the rest; a block built from them equals every re-hydration of its compact form (random and injected nonces) from any grouping. Sampled exploration.",
+   "Transactions share no commitment unless deliberately chained; deaggregation is not asserted for chained sets (statement).",
+   "DESIGN.md §5 C12"),
+ "C20": ("pbt", "exploration",
+   "proptest over seeds, paths, amounts, switch modes and builder inputs: determinism (twin keychains), create/verify/rewind round trip incl. view keys and foreign seeds, mod-N reference arithmetic for blinding factors",
+   "Two independently built keychains agree on keys and commitments (and commit equals amount*H + key*G on the harness's own context); created range proofs verify and rewind to exactly (amount, path, mode) with the same seed or the matching view key and to nothing with another seed; bit-flipped proofs never rewind to a different triple; blind_sum/split/add equal the harness's mod-N arithmetic byte for byte; transactions and coinbases from the builder validate, balance and their kernels verify. Sampled exploration.",
+   "LegacyProofBuilder only at depth 3 with the regular switch and view keys only for SwitchCommitmentType::None on non-hardened suffixes (the documented domains); zero scalar results are outside the domain.",
+   "DESIGN.md §5 C20"),
 }
 
 NOT_YET = {}
